@@ -360,6 +360,8 @@ def run_property(prop, tier, seed, only=None):
         cov['rule'] = bounded.get('rule', '')
         if bounded.get('samples'):
             cov['samples'] = bounded['samples'][:3] + cov['samples'][:1]
+        if not cov['samples']:
+            crashed.append({'id': 'rtc.%s' % prop.lower(), 'crash': 'bounded layer reported no sample case (evidence needs at least one)'})
         if 'exhaustive' in bounded:
             cov['exhaustive'] = bounded['exhaustive']
         if 'programs' in bounded:
